@@ -23,6 +23,18 @@ C['C07']=("jerr.NewLocation (+ dependency LineAndColumn/BeginningOfLine/EndOfLin
 C['C14']=("validateIncludeFileName for all names <=5/7 bytes (256 values per byte) against the reference safe-name predicate; the whole INCLUDE path (scanner, processInclude, filepath.Join/Dir from the stdlib SSA, virtual FS with decoys) for names <=3/4 bytes with every path handed to the FS asserted inside the includer's directory; include graphs with symbolic targets (cycles, repeats, missing, directory).",
  "Bounds as in evidence.assumptions; symlinks / case-folding / Windows separators outside. "+COMMON_TRUST,
  "concolic symbolic execution of go/ssa + SMT (z3); file system as logged nondeterministic stub","§4 C14")
+C['C12']=("scanner.Next executed symbolically on every file <=4/5 bytes and on 2/3 arbitrary bytes after 61 state-witness prefixes: errors inside the file; lexemes inside the file, ordered, non-overlapping, and accepted by the per-directive lexeme grammar automaton; plus exactness: rendered directive lines with symbolic parameter/annotation fields yield exactly the rendered extents and bytes.",
+ "Bounds in evidence.assumptions; body extents come from jsight-schema-core (executed from its SSA). Stubs: NewLocation contract, DecodeRune on the witness. "+COMMON_TRUST,
+ "concolic symbolic execution of go/ssa + SMT (z3); lexeme-grammar automaton and template extents as assertions","§4 C12")
+C['C11']=("The real processContext/closeLastExplicitContext/processEOF driven with symbolic directive kinds (all 31), Path and '(' flags and ')' events; implementation and a frozen context-table stack automaton must agree on accept/reject, rejecting event, error class, error location and every parent link, for every sequence of <=2 (quick) / 3 (thorough) events.",
+ "Bounds: <=2/3 events + EOF. Reference table hand-transcribed (harness/core/zz_verif_spec.go). "+COMMON_TRUST,
+ "concolic symbolic execution of go/ssa with symbolic directive kinds + SMT (z3), differential against reference automaton","§4 C11")
+C['C10']=("Relational symbolic execution: a directive run scanned in place vs. the same run moved into MACRO @m ( ... ) and called by PASTE @m (prefix/body kinds and flags symbolic over all 31 kinds) must produce the same tree after the real collectMacro/checkMacroForRecursion/processPaste; macro call graphs with symbolic PASTE targets: every cycle is a recursion error, undefined targets are macro-not-found, acyclic graphs are accepted.",
+ "Bounds: prefix <=1, body <=1 (quick) / 2 (thorough) directives; <=3 macros. Catalog equality is inferred from tree equality (later phases read only directivesWithPastes). "+COMMON_TRUST,
+ "concolic symbolic execution of go/ssa + SMT (z3), two-run relational harness","§4 C10")
+C['C19']=("Three fixed projects built with a symbolic banned pair {b1,b2} over all 31 kinds (solver enumerates all pairs): a banned kind occurring anywhere in the project text (also only inside an unused MACRO body, only inside an INCLUDEd file, and INCLUDE/MACRO/PASTE themselves) => not-allowed error located on a keyword of a banned kind; otherwise the build equals the build without the option.",
+ "Bounds: 3 fixture projects x all pairs of kinds. "+COMMON_TRUST,
+ "concolic symbolic execution of go/ssa + SMT (z3) over the banned-set parameters","§4 C19")
 checks=[]
 for pid in sorted(C):
     text,note,tech,design=C[pid]
